@@ -249,6 +249,27 @@ def gen_sat(rng: random.Random, s: float, defect: bool, L: int = 10) -> dict:
     return {"kind": "sat", "scale": s, "vars": vs, "cons": cons, "amo": amo, "k": rng.choice([3, 4])}
 
 
+def sat_variant(rng: random.Random, cons: list) -> list:
+    """the same constraints over the same variables and coefficients with the polarity of every / some literals flipped,
+    coefficients negated together with the polarity, or the terms permuted: keys a memo might wrongly identify"""
+    mode = rng.choice(["flip-all", "flip-some", "negate", "permute", "flip-all"])
+    out = []
+    for c in cons:
+        d = dict(c)
+        ts = [tuple(t) for t in c["terms"]]
+        if mode == "flip-all":
+            ts = [(co, v, not ng) for (co, v, ng) in ts]
+        elif mode == "flip-some":
+            ts = [(co, v, (not ng) if rng.random() < 0.5 else ng) for (co, v, ng) in ts]
+        elif mode == "negate":
+            ts = [(-co, v, not ng) for (co, v, ng) in ts]
+        else:
+            ts = rng.sample(ts, len(ts))
+        d["terms"] = ts
+        out.append(d)
+    return out
+
+
 def gen_strop(rng: random.Random, s: float, defect: bool, L: int = 10) -> dict:
     nr, nc = rng.randint(1, 5), rng.randint(1, 5)
     m = [[rng.random() < 0.6 for _ in range(nc)] for _ in range(nr)]
@@ -412,6 +433,9 @@ def gen_satmulti(rng: random.Random, s: float, defect: bool, L: int = 10) -> dic
                 d["cons"] = [dict(c, terms=[(co, ren[v], ng) for (co, v, ng) in c["terms"]]) for c in d["cons"]]
                 d["amo"] = [ren[v] for v in d["amo"]]
                 d["vars"] = [ren[v] for v in d["vars"]]
+    if rng.random() < 0.5:       # a manager posting polarity / order variants of another manager's constraints
+        a, b = rng.sample(range(nm), 2)
+        subs[b] = dict(subs[a], cons=sat_variant(rng, subs[a]["cons"]))
     order = [i for i, d in enumerate(subs) for _ in range(len(d["cons"]) + 1)]
     rng.shuffle(order)
     return {"kind": "satmulti", "scale": s, "subs": subs, "order": order}
@@ -1133,6 +1157,12 @@ def make_task(rng: random.Random, ctx: Ctx, weights: dict | None = None):
         twin["vars"] = sorted(set(probe["vars"]) | {"e"})
         hist.insert(rng.randint(0, len(hist)), twin)
     if kind == "sat" and rng.random() < 0.6:
+        # an earlier manager that encoded the same terms with other polarities / order (audit 4 row 13: a memo keyed by
+        # variables and coefficients only)
+        var = dict(probe)
+        var["cons"] = sat_variant(rng, probe["cons"])
+        hist.insert(rng.randint(0, len(hist)), var)
+    if kind == "sat" and rng.random() < 0.6:
         # cofactors of the probe's constraints encoded earlier: their diagrams become OLDER shared sub-diagrams of the probe's
         cof = dict(probe)
         cs = []
@@ -1425,10 +1455,20 @@ def gen_satproc(rng: random.Random) -> dict:
         elif r < 0.38:
             ops.append(["he", i, rng.choice([3, 3, 4, 2, 0]), [[v, rng.choice([1, 1, 0])] for v in rng.sample(ns, rng.randint(0, len(ns)))]])
         elif r < 0.88:
-            if earlier and rng.random() < 0.4:       # the SAME inequality again, by another manager / other construction
+            if earlier and rng.random() < 0.5:       # the SAME inequality again, by another manager / other construction
                 e = rng.choice(earlier)
                 if set(t[1] for t in e[4] + e[6]) <= set(ns):
-                    ops.append(["pb", i, rng.choice([0, 1]), e[3], e[4], e[5], e[6], e[7]])
+                    lt, rt = e[4], e[6]
+                    r2 = rng.random()
+                    if r2 < 0.3:        # same variables and coefficients, every polarity flipped
+                        lt, rt = [[c, v, 1 - sg] for (c, v, sg) in lt], [[c, v, 1 - sg] for (c, v, sg) in rt]
+                    elif r2 < 0.5:      # some polarities flipped
+                        lt = [[c, v, (1 - sg) if rng.random() < 0.5 else sg] for (c, v, sg) in lt]
+                    elif r2 < 0.6:      # coefficient negated together with the polarity
+                        lt = [[-c, v, 1 - sg] for (c, v, sg) in lt]
+                    elif r2 < 0.7:
+                        lt = rng.sample(lt, len(lt))
+                    ops.append(["pb", i, rng.choice([0, 1]), e[3], lt, e[5], rt, e[7]])
                     continue
             o = rng.choice([">=", ">=", ">=", "<=", "<=", ">", "<", "=", "=="])
             lt = terms(ns, -3, 5)
